@@ -535,6 +535,31 @@ impl Prop for C10 {
             }
             _ => {}
         }
+        // at other fixed places: an item appended to a run of about 2^20
+        // identical items (slides up and down through the whole run: more than
+        // 2^21 comparisons in one clean-up), followed by a small hunk
+        if idx % 250_000 == 99 {
+            let r = (1usize << 20) - 3 + ((idx / 250_000) % 4) as usize + 1;
+            let (x, y) = (7u32, 9u32);
+            let mut old = vec![0u32; r];
+            old[0] = 5;
+            old.extend_from_slice(&[x, x, y, y]);
+            let mut new = vec![0u32; r + 1];
+            new[0] = 5;
+            new.extend_from_slice(&[x, x, y, y, x]);
+            seq.old_range = (0, old.len());
+            seq.new_range = (0, new.len());
+            seq.old = old;
+            seq.new = new;
+            seq.index = IndexKind::Slice;
+            script = Some(vec![
+                Call::Equal(0, 0, r),
+                Call::Insert(r, r, 1),
+                Call::Equal(r, r + 1, 4),
+                Call::Insert(r + 4, r + 5, 1),
+            ]);
+            cap = 6;
+        }
         Case {
             seq,
             script_seed: rng.next(),
